@@ -4,28 +4,41 @@
    every per-character presentation choice, continuation indentation and trailing padding.
    Prints the rendered stream with the events it denotes; ModelAgrees cross-checks the
    implementation-shaped scanner/parser model against the reference presentation rules.         *)
-EXTENDS YParser, YRenderScalar, TLC, Json
-CONSTANTS N, Wide
-Sigma == IF Wide THEN {"a", " ", "\n", "'", "\"", "\\", ":", "#", "\t", "<u233>", "-", "<u128512>", ",", "[", "<u133>", "<u0>", "<u27>", "b"}
+EXTENDS YParser, YRenderScalar, TLC, Json, FiniteSets
+CONSTANTS N, Wide, Budget, MaxChD, CiMax       \* Budget: at most that many characters get a non-default presentation choice
+Sigma == IF Wide THEN {"a", " ", "\n", "'", "\"", "\\", ":", "#", "\t", "<u233>", "-", "<u128512>", ",", "[", "<u133>", "<u0>", "<u27>", "b",
+                          "<u7>", "<u8>", "<u11>", "<u12>", "\r", "/", "<u160>", "<u8232>", "<u8233>"}       \* with the others: every named escape of section 5.7
          ELSE {"a", " ", "\n", "'", "\"", "\\", ":", "#", "\t", "<u233>", "-"}
 VARIABLES t, phase, style, ctxn, ch, eb, ci, pad
 vars == <<t, phase, style, ctxn, ch, eb, ci, pad>>
 Init == t = <<>> /\ phase = "grow" /\ style = "" /\ ctxn = "" /\ ch = <<>> /\ eb = <<>> /\ ci = 0 /\ pad = 0
+\* fixed targets (N = 0: no growing): words that look like syntax at the start of a continuation line
+W3(a, m, b) == <<a, " ">> \o m \o <<" ", b>>
+FixedTargets == { W3("a", <<"-", "-", "-">>, "b"), W3("a", <<".", ".", ".">>, "b"), <<"a", " ", "-", "-", "-">>, <<"a", " ", ".", ".", ".">>,
+                  <<"-", "-", "-", " ", "a">>, <<"a", " ", "-", "-", "-", " ">>, <<"a", "\n", "-", "-", "-", " ", "b">>, <<"a", "\n", ".", ".", ".", "\n", "b">>,
+                  W3("a", <<"-", "-", "-", "b">>, "c"), W3("a", <<"-">>, "b"), W3("a", <<"-", "-">>, "b"), W3("a", <<"#">>, "b"), W3("a", <<"#", "b">>, "c"),
+                  W3("a", <<"?">>, "b"), W3("a", <<":">>, "b"), W3("a", <<"|">>, "b"), W3("a", <<">">>, "b"), W3("a", <<"&", "x">>, "b"), W3("a", <<"*", "x">>, "b"),
+                  W3("a", <<"!", "t">>, "b"), W3("a", <<"%", "Y">>, "b"), W3("a", <<"[", "x", "]">>, "b"), W3("a", <<"{", "x", "}">>, "b"), W3("a", <<"'">>, "b"),
+                  W3("a", <<"\"">>, "b"), W3("a", <<",">>, "b"), W3("a", <<"k", ":">>, "b"), W3("a", <<"-", " ", "x">>, "b") }
+InitFixed == t \in FixedTargets /\ phase = "grow" /\ style = "" /\ ctxn = "" /\ ch = <<>> /\ eb = <<>> /\ ci = 0 /\ pad = 0
+NonDefault == Cardinality({i \in 1..Len(ch) : ch[i] # 0 \/ eb[i] # 0})
 Grow == /\ phase = "grow" /\ Len(t) < N /\ \E c \in Sigma : t' = Append(t, c)
         /\ UNCHANGED <<phase, style, ctxn, ch, eb, ci, pad>>
-MaxCh(s) == IF s = "double" THEN 4 ELSE 1
+MaxCh(s) == IF s = "double" THEN MaxChD ELSE 1
 \* style, context and layout parameters first, then one presentation choice per character (one step each, so
 \* that long targets can be simulated without enumerating all choice vectors at once)
 Choose == /\ phase = "grow"
           /\ \E s \in {"plain", "single", "double"}, cn \in CtxNames :
                /\ (Representable(t, s, Ctx(cn)) = TRUE)       \* "= TRUE": evaluated as an expression (TLC would otherwise split the disjunctions into action branches)
                /\ style' = s /\ ctxn' = cn
-          /\ ci' \in 0..1 /\ pad' \in 0..1
+          /\ ci' \in 0..CiMax /\ pad' \in 0..1
           /\ ch' = <<>> /\ eb' = <<>>
           /\ phase' = (IF t = <<>> THEN "done" ELSE "pick")
           /\ UNCHANGED t
 Pick == /\ phase = "pick"
-        /\ \E c \in 0..MaxCh(style), e \in (IF style = "double" THEN {0, 1} ELSE {0}) : ch' = Append(ch, c) /\ eb' = Append(eb, e)
+        /\ \E c \in 0..MaxCh(style), e \in (IF style = "double" THEN {0, 1} ELSE {0}) :
+             /\ (c = 0 /\ e = 0) \/ NonDefault < Budget
+             /\ ch' = Append(ch, c) /\ eb' = Append(eb, e)
         /\ phase' = (IF Len(ch) + 1 = Len(t) THEN "done" ELSE "pick")
         /\ UNCHANGED <<t, style, ctxn, ci, pad>>
 Next == Grow \/ Choose \/ Pick
